@@ -146,3 +146,43 @@ Proof.
   - subst ps. discriminate.
   - subst ps. discriminate.
 Qed.
+
+(* setPartitionCache's filter loop, regenerated from client.go: the model's "leaderless" flag of a partition is exactly
+   "its metadata carries LEADER_NOT_AVAILABLE (5)"; a partition carrying any other partition-level error (e.g.
+   REPLICA_NOT_AVAILABLE) has an available leader and stays writable; every partition is offered to consistent partitioners *)
+Definition flag_of_err (x : Z * Z) : Z * bool := (fst x, snd x =? err_leader_not_available).
+
+Lemma writable_filter_loop : forall l ret set parts,
+  fst (DecC17.writable_filter_loop1 l ret set parts) =
+  ret ++ map fst (filter (fun x => negb ((set =? 1) && (snd x =? 5))) l).
+Proof.
+  induction l as [|x l IH]; intros ret set parts; simpl; [now rewrite app_nil_r|].
+  destruct ((set =? 1) && (snd x =? 5)); simpl; rewrite IH; [reflexivity|]. now rewrite <- app_assoc.
+Qed.
+
+Lemma tie_writable_parts : forall l : list (Z * Z),
+  writable_parts (map flag_of_err l) = isort (fst (DecC17.writable_filter [] 1 l)).
+Proof.
+  intro l. unfold writable_parts, DecC17.writable_filter. rewrite writable_filter_loop. simpl. f_equal.
+  induction l as [|x l IH]; simpl; [reflexivity|]. unfold err_leader_not_available.
+  destruct (snd x =? 5); simpl; now rewrite <- IH.
+Qed.
+
+Lemma tie_all_parts : forall l : list (Z * Z),
+  all_parts (map flag_of_err l) = isort (fst (DecC17.writable_filter [] 0 l)).
+Proof.
+  intro l. unfold all_parts, DecC17.writable_filter. rewrite writable_filter_loop. simpl. f_equal.
+  induction l as [|x l IH]; simpl; [reflexivity|]. now rewrite <- IH.
+Qed.
+
+(* consequence stated on the metadata as the broker sent it: a partition is writable iff its error is not LEADER_NOT_AVAILABLE *)
+Lemma writable_iff_leader_available : forall (l : list (Z * Z)) p,
+  In p (fst (DecC17.writable_filter [] 1 l)) <-> exists e, In (p, e) l /\ e <> 5.
+Proof.
+  intros l p. unfold DecC17.writable_filter. rewrite writable_filter_loop. simpl.
+  rewrite in_map_iff. split.
+  - intros [[q e] [Hq Hin]]. simpl in Hq. subst q. apply filter_In in Hin as [Hin Hf]. simpl in Hf.
+    exists e. split; [exact Hin|]. intro He. subst e. discriminate.
+  - intros [e [Hin He]]. exists (p, e). split; [reflexivity|]. apply filter_In. split; [exact Hin|]. simpl.
+    destruct (Z.eqb_spec e 5); [contradiction | reflexivity].
+Qed.
